@@ -29,7 +29,7 @@ def gates(tier):
             'restriction:blacklist': 100, 'restriction:blacklist:user_override': 15, 'restriction:whitelist': 150, 'restriction:whitelist_none': 100,
             'restriction:required': 100, 'restriction:forbidden': 150, 'restriction:instructor_var': 150,
             'restriction:numbered': 100, 'restriction:suffix': 80, 'restriction:name': 150,
-            'restriction:sibling': 60, 'restriction:sibling_via_sampler': 60, 'aborted_parse_before_cheat': 30, 'restriction:sum_blacklist': 80, 'partial_credit_cheats': 200}
+            'restriction:sibling': 60, 'restriction:sibling_via_sampler': 60, 'aborted_parse_before_cheat': 30, 'restriction:sum_blacklist': 80, 'partial_credit_cheats': 200, 'restriction_combinations': 400}
 
 
 def credited(out):
@@ -103,6 +103,9 @@ def run_functions(ctx):
         target = rng.choice([ans, '2*(%s)' % ans])
         kind = rng.choice(['blacklist', 'whitelist', 'whitelist_none'])
         common = dict(answers=answers, variables=['x'], user_functions={'uf': lambda t: t * 1.0}, user_constants={'kc': 2.5})
+        if rng.random() < 0.4:
+            common['forbidden_strings'] = rng.choice([['arcsin'], ['x*x*x*x'], ['sec', 'csc(']])
+            ctx.count('restriction_combinations')
         override = False
         if kind == 'blacklist':
             bad = rng.choice(['sin', 'tan', 'sqrt', 'abs', 'arctan2'])
@@ -154,8 +157,14 @@ def run_required(ctx):
                       'exp': ('exp(2*{v})', 'e^(2*{v})')}[req]
         ans, equiv = ans.format(v=var), equiv.format(v=var)
         answers = ({'expect': ans, 'grade_decimal': 1}, {'expect': '3*(%s)' % ans, 'grade_decimal': 0.4})
-        restricted = build(cls_name, answers=answers, variables=['x'], required_functions=[req])
-        twin = build(cls_name, answers=answers, variables=['x'])
+        # other restrictions configured beside the one under test (none of them is violated by the cheat)
+        by = {}
+        if rng.random() < 0.5:
+            by['forbidden_strings'] = rng.choice([['arcsin'], ['x*x*x*x', 'tan ('], ['sec']])
+        if rng.random() < 0.3:
+            by['blacklist'] = ['arccos', 'floor']
+        restricted = build(cls_name, answers=answers, variables=['x'], required_functions=[req], **by)
+        twin = build(cls_name, answers=answers, variables=['x'], **by)
         # a correct formula that omits the required function
         if req == 'sin':
             cheat = '2*cos({v}-pi/2)*cos({v})'.format(v=var)
@@ -165,7 +174,9 @@ def run_required(ctx):
             cheat = equiv
         scale = rng.choice(['', '3*'])
         formula = '%s(%s)' % (scale, cheat)
-        wit = {'grader': cls_name, 'restriction': 'required', 'required': req, 'answer': ans}
+        wit = {'grader': cls_name, 'restriction': 'required', 'required': req, 'answer': ans, 'other_restrictions_configured': by}
+        if by:
+            ctx.count('restriction_combinations')
         if i % 3 == 0:
             # history: a submission that does use the required function but whose parse is aborted (nesting too deep
             # for the parser), then a never-parsed cheat
@@ -185,9 +196,13 @@ def run_forbidden(ctx):
         cls_name = rng.choice(['FormulaGrader', 'MatrixGrader'])
         ans = rng.choice(['x^2', 'x^3'])
         forb = rng.choice([['x*x'], ['x * x', '*x*'], ['*x'], ['x*x', 'x^(1+1)']])
+        by = {}
+        if rng.random() < 0.4:
+            by = rng.choice([{'blacklist': ['arccos']}, {'whitelist': ['sin', 'cos']}, {'whitelist': [None]}])
+            ctx.count('restriction_combinations')
         restricted = build(cls_name, answers=({'expect': ans, 'grade_decimal': 1}, {'expect': '2*' + ans, 'grade_decimal': 0.5}),
-                           variables=['x'], forbidden_strings=forb, forbidden_message='NOPE')
-        twin = build(cls_name, answers=({'expect': ans, 'grade_decimal': 1}, {'expect': '2*' + ans, 'grade_decimal': 0.5}), variables=['x'])
+                           variables=['x'], forbidden_strings=forb, forbidden_message='NOPE', **by)
+        twin = build(cls_name, answers=({'expect': ans, 'grade_decimal': 1}, {'expect': '2*' + ans, 'grade_decimal': 0.5}), variables=['x'], **by)
         body = 'x*x' if ans == 'x^2' else 'x*x*x'
         sp = lambda s: ''.join(ch + (' ' * rng.randint(0, 2)) for ch in s)
         formula = rng.choice(['', '2*']) + rng.choice(['{b}', '({b})', '{b}+0', '0+{b}', ' {b} ']).format(b=sp(body))
